@@ -121,7 +121,9 @@ TWINS = {"quick": 150, "thorough": 3000}
 
 SPECIFIC = {
     "C01": ["legality", "shapes", "downgrade"],
-    "C07": ["downgrade"],
+    "C07": ["downgrade", "window"],
+    "C06": ["window"],
+    "C03": ["window"],
     "C20": ["replies"],
     "C04": ["vectors", "inbound", "limitsim"],
     "C08": ["vectors", "readersim"],
@@ -374,7 +376,7 @@ def gen_twins(kind):
     return gen
 
 
-GENERATORS = {"limitsim": gen_limitsim, "replies": gen_program("replies"), "downgrade": gen_program("downgrade"), "inbound": gen_program("inbound"), "legality": gen_program("legality"), "shapes": gen_program("shapes"), "maxima": gen_program("maxima"),
+GENERATORS = {"window": gen_program("window"), "limitsim": gen_limitsim, "replies": gen_program("replies"), "downgrade": gen_program("downgrade"), "inbound": gen_program("inbound"), "legality": gen_program("legality"), "shapes": gen_program("shapes"), "maxima": gen_program("maxima"),
               "twins-aged": gen_aged, "arenasim": gen_arenasim, "readersim": gen_readersim, "timesim": gen_timesim, "vectors": gen_vectors, "twins-stall": gen_twins("stall"), "twins-fragcancel": gen_twins("fragcancel"), "twins-cancel": gen_twins("cancel"), "twins-fragment": gen_twins("fragment"), "common": gen_common, "witness": gen_witness, "cover": gen_cover, "sim": gen_sim}
 
 
